@@ -12,8 +12,6 @@ SizeOf(szx) == 2 ^ (szx + 4)
 BvScalar(bv) == bv.num * 16 + (IF bv.more THEN 8 ELSE 0) + bv.szx
 BvEnc(bv) == NatBytes(BvScalar(bv))
 
-None == [some |-> FALSE]
-Some(x) == [some |-> TRUE, v |-> x]
 
 BvDec(b) ==
   IF Len(b) > 3 THEN None
